@@ -404,11 +404,51 @@ def draw_doc(ch, tag="D"):
     return doc
 
 
+def sibling(doc, ch):
+    """A revision of ``doc``: same SpaceSystem name, same header, same names everywhere, exactly one thing differs (the
+    size of one integer type, or the label of one enumeration value, or one added parameter). State keyed by a
+    document's identity rather than by its content is stale for a sibling."""
+    import copy
+    sib = copy.deepcopy(doc)
+    sib.features = set(doc.features) | {"sibling"}
+    candidates = []
+    ref_types = {sib.ptype[k_["ref"]] for (_n, _x, k_) in sib.types if k_.get("ref") in sib.ptype}
+    for ti, (name, node, k) in enumerate(sib.types):
+        if name.endswith("_Type"):            # header / pad / sub types keep their size (packets are built around them)
+            continue
+        if node[0] == "IntegerParameterType" and name not in ref_types and k.get("bits", 99) <= 32:
+            candidates.append(("resize", ti))
+        if node[0] == "EnumeratedParameterType":
+            candidates.append(("relabel", ti))
+    how, ti = ch.pick(candidates, "sib_how") if candidates else ("add_param", None)
+    if how == "resize":
+        name, node, k = sib.types[ti]
+        enc = next(c for c in node[2] if c[0] == "IntegerDataEncoding")
+        new_bits = int(enc[1]["sizeInBits"]) + 8
+        enc[1]["sizeInBits"] = str(new_bits)
+        k["bits"] = new_bits
+    elif how == "relabel":
+        name, node, k = sib.types[ti]
+        el = next(c for c in node[2] if c[0] == "EnumerationList")
+        el[2][0][1]["label"] = el[2][0][1]["label"] + "_rev2"
+    else:
+        tname = "SIB_T"
+        sib.types.append((tname, E("IntegerParameterType", {"name": tname}, [_int_encoding(8, "unsigned")]), {"kind": "uint", "bits": 8}))
+        sib.params.append(("SIB_P", tname, None, None))
+        sib.ptype["SIB_P"] = tname
+        leafname = sib.leaves[0]["name"]
+        next(c for c in sib.containers if c["name"] == leafname)["entries"].append(("p", "SIB_P"))
+    for (name, node, k) in sib.types:       # the kinds dict must point at the (copied) kind records of the types list
+        sib.kinds[name] = k
+    return sib
+
+
 # ---------------------------------------------------------------------------------------------
 # rendering
 # ---------------------------------------------------------------------------------------------
 
-CANONICAL = dict(ns="prefix", prefix="xtce", comments="none", ws="compact", seed=0, extra_ns=False, decl=True)
+XTCE_URIS = (XTCE_URI, "http://www.omg.org/space/xtce", "https://www.omg.org/spec/XTCE/20180204")
+CANONICAL = dict(ns="prefix", prefix="xtce", comments="none", ws="compact", seed=0, extra_ns=False, decl=True, uri=XTCE_URI)
 
 
 def draw_rendering(ch):
@@ -434,7 +474,8 @@ def draw_rendering(ch):
     ws = ch.pick(("compact", "pretty", "tabs", "crlf"), "ws")
     seed = ch.draw(1 << 16, "rseed") if comments == "some" else 0
     extra_ns = ch.chance(1, 3, "extra_ns") and ns != "none"     # "no namespace at all" means none at all
-    return dict(ns=ns, prefix=prefix, comments=comments, ws=ws, seed=seed, extra_ns=extra_ns,
+    uri = ch.weighted([(4, XTCE_URIS[0]), (1, XTCE_URIS[1]), (1, XTCE_URIS[2])], "uri")     # which URI names the XTCE namespace
+    return dict(ns=ns, prefix=prefix, comments=comments, ws=ws, seed=seed, extra_ns=extra_ns, uri=uri,
                 decl=not ch.chance(1, 4, "nodecl"))
 
 
@@ -483,9 +524,9 @@ def render(doc, rd):
         a = "".join(f' {k}="{_esc(v, True)}"' for k, v in attrs.items())
         if root:
             if rd["ns"] == "prefix":
-                a += f' xmlns:{rd["prefix"]}="{XTCE_URI}"'
+                a += f' xmlns:{rd["prefix"]}="{rd.get("uri", XTCE_URI)}"'
             elif rd["ns"] == "default":
-                a += f' xmlns="{XTCE_URI}"'
+                a += f' xmlns="{rd.get("uri", XTCE_URI)}"'
             if rd["extra_ns"]:
                 a += ' xmlns:xsi="http://www.w3.org/2001/XMLSchema-instance"'
         lead = f"{nl}{ind * depth}" if not root else ""
